@@ -142,6 +142,21 @@ Definition run_c02 (id : str) (d : doc) (impl : sexp) : str :=
      kv "npages" (nat_str (length (observed_pages pd)));
      kv "nrows" (nat_str (length (all_data_rows pd)))]).
 
+Definition run_c13 (id : str) (d : doc) (impl : sexp) : str :=
+  match impl with
+  | SList [SNum [48%N]; SStr cls] =>
+    let ok := str_eqb cls (s2l "ValueError") && c13_should_refuse d in
+    line [kv "id" id; kv "tie" (bool_str (doc_tie d));
+          kv "agree" (bool_str (match encode d with Err e => str_eqb (err_name e) cls | Ok _ => false end));
+          kv "holds" (bool_str ok); kv "clause" (s2l (if ok then "0" else "9")); kv "refused" (safe cls)]
+  | _ =>
+    with_parsed id d impl (fun pd =>
+      let cl := check_c13 d pd in
+      [kv "holds" (bool_str (Nat.eqb cl 0)); kv "clause" (nat_str cl);
+       kv "agree" (bool_str (items_agree d pd));
+       kv "npages" (nat_str (length (observed_pages pd)))])
+  end.
+
 Definition run_case (e : sexp) : str :=
   match e with
   | SList [SStr mode; SStr id; de; impl] =>
@@ -151,6 +166,7 @@ Definition run_case (e : sexp) : str :=
       if str_eqb mode (s2l "corr") then run_corr id d impl
       else if str_eqb mode (s2l "c01") then run_c01 id d impl
       else if str_eqb mode (s2l "c04") then run_c04 id d impl
+      else if str_eqb mode (s2l "c13") then run_c13 id d impl
       else if str_eqb mode (s2l "c02") then run_c02 id d impl
       else line [kv "id" id; kv "bad" (s2l "mode")]
     end
